@@ -637,3 +637,750 @@ Proof.
   split; [apply pair_inv_reflect; exact I2|].
   apply mono_live_tri. eapply mono_trans; eauto.
 Qed.
+
+(* ---- RemoveIfFolded ------------------------------------------------------------ *)
+Lemma set_all_neg : forall s a b c, set_all s (-1) a b c = None.
+Proof. reflexivity. Qed.
+
+Lemma rif_cases : forall s edge s',
+  remove_if_folded s edge = Some s' ->
+  s' = s \/
+  exists pe pa1 pb2 pa2' pb1' s1 s2,
+    h_pair s edge = Some pe /\
+    h_pair s (next_he edge) = Some pa1 /\ pa1 <> -1 /\
+    h_pair s (next_he (next_he pe)) = Some pb2 /\
+    pair_up s pa1 pb2 = Some s1 /\
+    h_pair s1 (next_he (next_he edge)) = Some pa2' /\
+    h_pair s1 (next_he pe) = Some pb1' /\
+    pair_up s1 pa2' pb1' = Some s2 /\
+    0 <= pe /\
+    forall j, h_pair s' j =
+      if in_faceb edge j || in_faceb pe j then Some (-1) else h_pair s2 j.
+Proof.
+  intros s edge s' H. unfold remove_if_folded, tri_of in H.
+  steps H; try (left; reflexivity).
+  right. exists z, z0, z4, z5, z6, s0, s1.
+  apply Z.eqb_neq in B.
+  assert (Hpe : 0 <= z) by (apply set_all_range in E11; lia).
+  repeat (split; [first [assumption|reflexivity]|]).
+  intros j.
+  rewrite (set_all_pair _ _ _ _ _ _ H), (set_all_pair _ _ _ _ _ _ E14),
+    (set_all_pair _ _ _ _ _ _ E13), (set_all_pair _ _ _ _ _ _ E12),
+    (set_all_pair _ _ _ _ _ _ E11), (set_all_pair _ _ _ _ _ _ E10).
+  unfold in_faceb.
+  destruct (j =? edge), (j =? next_he edge), (j =? next_he (next_he edge)),
+    (j =? z), (j =? next_he z), (j =? next_he (next_he z)); reflexivity.
+Qed.
+
+Lemma in_face_next_not : forall t j, 0 <= t -> 0 <= j -> ~ in_face t j ->
+  ~ in_face t (next_he j).
+Proof. intros t j Ht Hj H H'; apply H, in_face_next; assumption. Qed.
+
+Ltac kill_if :=
+  repeat match goal with
+  | H : ?a <> ?b |- context [?a =? ?b] => rewrite (proj2 (Z.eqb_neq a b) H)
+  | H : ?b <> ?a |- context [?a =? ?b] => rewrite (proj2 (Z.eqb_neq a b) (not_eq_sym H))
+  | |- context [?a =? ?a] => rewrite (Z.eqb_refl a)
+  end; cbn [orb andb negb].
+
+
+Lemma pair_up_ok_args : forall s x y s', pair_up s x y = Some s' -> x <> y ->
+  ok s' x /\ ok s' y.
+Proof.
+  intros s x y s' H Hne. pose proof (pair_up_pair _ _ _ _ H) as G.
+  split; intros p Hp Hp0; rewrite G in Hp; rewrite G.
+  - destruct (Z.eqb_spec x y); [contradiction|]. rewrite Z.eqb_refl in Hp.
+    inversion Hp; subst p. rewrite Z.eqb_refl. split; congruence.
+  - rewrite Z.eqb_refl in Hp. inversion Hp; subst p.
+    destruct (Z.eqb_spec x y); [contradiction|]. rewrite Z.eqb_refl. split; congruence.
+Qed.
+
+Lemma pair_up_ok_other : forall s x y s' e, pair_up s x y = Some s' ->
+  e <> x -> e <> y -> ok s e -> h_pair s e <> Some x -> h_pair s e <> Some y -> ok s' e.
+Proof.
+  intros s x y s' e H Hx Hy Hok Nx Ny p Hp Hp0. pose proof (pair_up_pair _ _ _ _ H) as G.
+  rewrite G in Hp.
+  destruct (Z.eqb_spec e y); [contradiction|]. destruct (Z.eqb_spec e x); [contradiction|].
+  destruct (Hok _ Hp Hp0) as [S Q]. split; [exact S|]. rewrite G.
+  destruct (Z.eqb_spec p y); [congruence|]. destruct (Z.eqb_spec p x); [congruence|]. exact Q.
+Qed.
+
+Lemma rif_core : forall s a0 b0 pa1 pb2 pa2' pb1' s1 s2 s',
+  WF s -> 0 <= a0 -> 0 <= b0 ->
+  h_pair s a0 = Some b0 -> ~ in_face a0 b0 ->
+  ok s a0 -> ok s (next_he a0) -> ok s (next_he (next_he a0)) ->
+  ok s (next_he b0) -> ok s (next_he (next_he b0)) ->
+  h_pair s (next_he a0) = Some pa1 -> pa1 <> -1 ->
+  h_pair s (next_he (next_he b0)) = Some pb2 ->
+  pair_up s pa1 pb2 = Some s1 ->
+  h_pair s1 (next_he (next_he a0)) = Some pa2' ->
+  h_pair s1 (next_he b0) = Some pb1' ->
+  pair_up s1 pa2' pb1' = Some s2 ->
+  slots s' = slots s ->
+  (forall j, h_pair s' j =
+      if in_faceb a0 j || in_faceb b0 j then Some (-1) else h_pair s2 j) ->
+  exists pa2 pb1,
+  h_pair s (next_he (next_he a0)) = Some pa2 /\ h_pair s (next_he b0) = Some pb1 /\
+  (forall j, hlive s' j = if in_faceb a0 j || in_faceb b0 j then false else hlive s j) /\
+  (forall j, in_faceb a0 j || in_faceb b0 j = false ->
+     j <> pa1 -> j <> pb2 -> j <> pa2 -> j <> pb1 -> h_pair s' j = h_pair s j) /\
+  (forall j, 0 <= j < slots s -> exists p, h_pair s' j = Some p /\ -1 <= p) /\
+  (forall e, ok s e -> ok s' e).
+Proof.
+  intros s a0 b0 pa1 pb2 pa2' pb1' s1 s2 s' Hw Ha0 Hb0 Hab Hnf Oa0 Oa1 Oa2 Ob1 Ob2
+    Hpa1 Hne Hpb2 U1 Hpa2' Hpb1' U2 L G.
+  pose proof (pair_up_pair _ _ _ _ U1) as G1.
+  pose proof (pair_up_pair _ _ _ _ U2) as G2.
+  destruct (WF_val _ _ _ Hw Hpa1) as [?|P1]; [contradiction|].
+  assert (La1 : hlive s (next_he a0) = true) by (apply hlive_true; eauto).
+  assert (La0 : hlive s a0 = true) by (rewrite <- (WF_next s a0 Hw Ha0); exact La1).
+  assert (La2 : hlive s (next_he (next_he a0)) = true).
+  { rewrite WF_next; auto using next_he_nonneg. }
+  destruct (Oa0 _ Hab Hb0) as [Sab Hba].
+  assert (Lb0 : hlive s b0 = true) by (apply hlive_true; eauto).
+  assert (Lb1 : hlive s (next_he b0) = true) by (rewrite WF_next; auto).
+  assert (Lb2 : hlive s (next_he (next_he b0)) = true).
+  { rewrite WF_next; auto using next_he_nonneg. }
+  apply hlive_true in La2; destruct La2 as [pa2 [Hpa2 P2]].
+  apply hlive_true in Lb1; destruct Lb1 as [pb1 [Hpb1 P3]].
+  assert (P4 : 0 <= pb2).
+  { apply hlive_true in Lb2; destruct Lb2 as [q [Hq Hq0]]; congruence. }
+  destruct (Oa1 _ Hpa1 P1) as [Sa1 Qa1]. destruct (Oa2 _ Hpa2 P2) as [Sa2 Qa2].
+  destruct (Ob1 _ Hpb1 P3) as [Sb1 Qb1]. destruct (Ob2 _ Hpb2 P4) as [Sb2 Qb2].
+  pose proof (next_he_ne a0 Ha0) as [Da1 Da2].
+  pose proof (next_he_ne (next_he a0) (next_he_nonneg _ Ha0)) as [Da3 _].
+  pose proof (next_he_ne b0 Hb0) as [Db1 Db2].
+  pose proof (next_he_ne (next_he b0) (next_he_nonneg _ Hb0)) as [Db3 _].
+  pose proof (in_face_next_not _ _ Ha0 Hb0 Hnf) as Hnf1.
+  pose proof (in_face_next_not _ _ Ha0 (next_he_nonneg _ Hb0) Hnf1) as Hnf2.
+  unfold in_face in Hnf, Hnf1, Hnf2.
+  assert (C00 : b0 <> a0) by tauto. assert (C01 : b0 <> next_he a0) by tauto.
+  assert (C02 : b0 <> next_he (next_he a0)) by tauto.
+  assert (C10 : next_he b0 <> a0) by tauto. assert (C11 : next_he b0 <> next_he a0) by tauto.
+  assert (C12 : next_he b0 <> next_he (next_he a0)) by tauto.
+  assert (C20 : next_he (next_he b0) <> a0) by tauto.
+  assert (C21 : next_he (next_he b0) <> next_he a0) by tauto.
+  assert (C22 : next_he (next_he b0) <> next_he (next_he a0)) by tauto.
+  clear Hnf Hnf1 Hnf2.
+  assert (Ha1 := next_he_nonneg _ Ha0). assert (Ha2 := next_he_nonneg _ Ha1).
+  assert (Hb1 := next_he_nonneg _ Hb0). assert (Hb2 := next_he_nonneg _ Hb1).
+  exists pa2, pb1. split; [exact Hpa2|split; [exact Hpb1|]].
+  pose proof Hpa2' as Rpa2'. pose proof Hpb1' as Rpb1'.
+  rewrite G1 in Hpa2', Hpb1'.
+  unfold in_faceb in *.
+  clear Lb2 La1.
+  generalize dependent (next_he (next_he a0)); intros a2; intros.
+  generalize dependent (next_he a0); intros a1; intros.
+  generalize dependent (next_he (next_he b0)); intros b2; intros.
+  generalize dependent (next_he b0); intros b1; intros.
+  assert (Hlpa1 : hlive s pa1 = true) by (apply hlive_true; eauto).
+  assert (Hlpa2 : hlive s pa2 = true) by (apply hlive_true; eauto).
+  assert (Hlpb1 : hlive s pb1 = true) by (apply hlive_true; eauto).
+  assert (Hlpb2 : hlive s pb2 = true) by (apply hlive_true; eauto).
+  assert (X2 : pa2' = pa2 \/ pa2' = pb2 \/ pa2' = pa1).
+  { clear Hpb1'. zeqb; [right; right|right; left|left]; congruence. }
+  assert (X3 : pb1' = pb1 \/ pb1' = pa1 \/ pb1' = pb2).
+  { clear Hpa2'. zeqb; [right; left|right; right|left]; congruence. }
+  assert (Y2 : 0 <= pa2' /\ hlive s pa2' = true).
+  { destruct X2 as [->|[->| ->]]; auto. }
+  assert (Y3 : 0 <= pb1' /\ hlive s pb1' = true).
+  { destruct X3 as [->|[->| ->]]; auto. }
+  destruct Y2 as [P5 Hlpa2']. destruct Y3 as [P6 Hlpb1'].
+  assert (HL : forall j : Z,
+   hlive s' j =
+   (if (j =? a0) || (j =? a1) || (j =? a2) || ((j =? b0) || (j =? b1) || (j =? b2))
+    then false else hlive s j)).
+  { intros j; unfold hlive at 1; rewrite G, G2, G1.
+    destruct ((j =? a0) || (j =? a1) || (j =? a2) || ((j =? b0) || (j =? b1) || (j =? b2)));
+      [reflexivity|].
+    destruct (Z.eqb_spec j pb1') as [->|]; [rewrite Hlpb1'; apply Z.leb_le; assumption|].
+    destruct (Z.eqb_spec j pa2') as [->|]; [rewrite Hlpa2'; apply Z.leb_le; assumption|].
+    destruct (Z.eqb_spec j pb2) as [->|]; [rewrite Hlpb2; apply Z.leb_le; assumption|].
+    destruct (Z.eqb_spec j pa1) as [->|]; [rewrite Hlpa1; apply Z.leb_le; assumption|].
+    reflexivity. }
+  split; [exact HL|]. split; [|split].
+  - intros j Hj J1 J2 J3 J4. rewrite G, Hj, G2, G1.
+    assert (j <> pb1') by (destruct X3 as [->|[->| ->]]; auto).
+    assert (j <> pa2') by (destruct X2 as [->|[->| ->]]; auto).
+    kill_if. reflexivity.
+  - intros j Hj. rewrite G, G2, G1.
+    assert (M1 : -1 <= pa1) by (clear - P1; lia). assert (M4 : -1 <= pb2) by (clear - P4; lia).
+    assert (M5 : -1 <= pa2') by (clear - P5; lia). assert (M6 : -1 <= pb1') by (clear - P6; lia).
+    destruct ((j =? a0) || (j =? a1) || (j =? a2) || ((j =? b0) || (j =? b1) || (j =? b2)));
+      [eexists; split; [reflexivity|apply Z.le_refl]|].
+    destruct (j =? pb1'); [eexists; split; [reflexivity|assumption]|].
+    destruct (j =? pa2'); [eexists; split; [reflexivity|assumption]|].
+    destruct (j =? pb2); [eexists; split; [reflexivity|assumption]|].
+    destruct (j =? pa1); [eexists; split; [reflexivity|assumption]|].
+    destruct Hw as [_ Hwf]. apply Hwf; exact Hj.
+  - (* all e outside a1,a2,b1,b2 stay well paired through the two PairUp *)
+    assert (Npab : pa1 <> pb2) by congruence.
+    assert (S1 : forall e, ok s e -> e <> a1 -> e <> b2 -> ok s1 e).
+    { intros e Hoke E1 E2.
+      destruct (Z.eq_dec e pa1) as [->|E3]; [apply (pair_up_ok_args _ _ _ _ U1 Npab)|].
+      destruct (Z.eq_dec e pb2) as [->|E4]; [apply (pair_up_ok_args _ _ _ _ U1 Npab)|].
+      apply (pair_up_ok_other _ _ _ _ _ U1 E3 E4 Hoke).
+      - intros He. destruct (Hoke _ He P1) as [_ Q]. congruence.
+      - intros He. destruct (Hoke _ He P4) as [_ Q]. congruence. }
+    assert (O1a2 : ok s1 a2) by (apply S1; auto).
+    assert (O1b1 : ok s1 b1) by (apply S1; auto).
+    destruct (O1a2 _ Rpa2' P5) as [Sa2' Qa2'].
+    destruct (O1b1 _ Rpb1' P6) as [Sb1' Qb1'].
+    assert (Npab' : pa2' <> pb1') by congruence.
+    assert (S2 : forall e, ok s1 e -> e <> a2 -> e <> b1 -> ok s2 e).
+    { intros e Hoke E1 E2.
+      destruct (Z.eq_dec e pa2') as [->|E3]; [apply (pair_up_ok_args _ _ _ _ U2 Npab')|].
+      destruct (Z.eq_dec e pb1') as [->|E4]; [apply (pair_up_ok_args _ _ _ _ U2 Npab')|].
+      apply (pair_up_ok_other _ _ _ _ _ U2 E3 E4 Hoke).
+      - intros He. destruct (Hoke _ He P5) as [_ Q]. congruence.
+      - intros He. destruct (Hoke _ He P6) as [_ Q]. congruence. }
+    (* no well-paired halfedge outside the two faces points into them *)
+    assert (CK : forall k q, k = a0 \/ k = a1 \/ k = a2 \/ k = b0 \/ k = b1 \/ k = b2 ->
+              h_pair s2 k = Some q -> h_pair s2 q = Some k ->
+              q <> a0 -> q <> a1 -> q <> a2 -> q <> b0 -> q <> b1 -> q <> b2 -> False).
+    { intros k q Hk Hkq Hqk Q0 Q1 Q2 Q3 Q4 Q5.
+      rewrite G2, G1 in Hkq, Hqk.
+      clear - Hk Hkq Hqk Q0 Q1 Q2 Q3 Q4 Q5 Hpa2' Hpb1' Hab Hba Hpa1 Qa1 Hpa2 Qa2 Hpb1 Qb1 Hpb2 Qb2
+                Sa1 Sa2 Sb1 Sb2 Sab Da1 Da2 Da3 Db1 Db2 Db3 C00 C01 C02 C10 C11 C12 C20 C21 C22.
+      destruct Hk as [->|[->|[->|[->|[->| ->]]]]]; zeqb; subst; try congruence. }
+    intros e Hoke p Hp Hp0. rewrite G in Hp.
+    destruct ((e =? a0) || (e =? a1) || (e =? a2) || ((e =? b0) || (e =? b1) || (e =? b2))) eqn:Ke;
+      [inversion Hp; subst p; clear - Hp0; lia|].
+    repeat match goal with H : (_ || _) = false |- _ => apply orb_false_iff in H; destruct H end.
+    repeat match goal with H : (_ =? _) = false |- _ => apply Z.eqb_neq in H end.
+    assert (O2 : ok s2 e) by (apply S2; auto).
+    destruct (O2 _ Hp Hp0) as [S Q]. split; [exact S|]. rewrite G.
+    destruct ((p =? a0) || (p =? a1) || (p =? a2) || ((p =? b0) || (p =? b1) || (p =? b2))) eqn:Kp;
+      [|exact Q].
+    exfalso. apply (CK p e); auto.
+    rewrite !orb_true_iff, !Z.eqb_eq in Kp. tauto.
+Qed.
+
+(* ---- RemoveIfFolded: invariant and liveness ------------------------------------- *)
+Lemma rif_guard_spec : forall s x edge, rif_guard s x edge = true ->
+  exists pe, h_pair s edge = Some pe /\
+    (0 <= pe -> ~ in_face edge pe /\ ~ in_face edge x /\ ~ in_face pe x).
+Proof.
+  intros s x edge H; unfold rif_guard in H.
+  destruct (h_pair s edge) as [pe|]; [|discriminate]. exists pe; split; [reflexivity|].
+  intros Hpe. destruct (Z.ltb_spec pe 0); [lia|].
+  rewrite !andb_true_iff, !negb_true_iff, !in_faceb_false in H. tauto.
+Qed.
+
+Theorem remove_if_folded_inv : forall x s edge s',
+  Inv x s -> rif_guard s x edge = true ->
+  remove_if_folded s edge = Some s' ->
+  Inv x s' /\ mono s s' /\ slots s' = slots s.
+Proof.
+  intros x s edge s' HI Hg H. pose proof HI as [Hw [Hok Hx]].
+  pose proof (remove_if_folded_slots _ _ _ H) as L.
+  destruct (rif_cases _ _ _ H) as [->|(pe & pa1 & pb2 & pa2' & pb1' & s1 & s2 & Hpe & Hpa1 & Hne &
+      Hpb2 & U1 & Hpa2' & Hpb1' & U2 & Pe & G)].
+  { split; [exact HI|split; [apply mono_refl|reflexivity]]. }
+  destruct (rif_guard_spec _ _ _ Hg) as [pe' [Hpe' Hgs]].
+  rewrite Hpe in Hpe'; inversion Hpe'; subst pe'. destruct (Hgs Pe) as [Nf [Nx1 Nx2]].
+  pose proof (h_pair_range _ _ _ Hpe) as [He0 _].
+  assert (Ha1 := next_he_nonneg _ He0). assert (Ha2 := next_he_nonneg _ Ha1).
+  assert (Hb1 := next_he_nonneg _ Pe). assert (Hb2 := next_he_nonneg _ Hb1).
+  unfold in_face in Nx1, Nx2.
+  assert (Oa0 : ok s edge) by (apply Hok; intro E; symmetry in E; tauto).
+  assert (Oa1 : ok s (next_he edge)) by (apply Hok; intro E; symmetry in E; tauto).
+  assert (Oa2 : ok s (next_he (next_he edge))) by (apply Hok; intro E; symmetry in E; tauto).
+  assert (Ob1 : ok s (next_he pe)) by (apply Hok; intro E; symmetry in E; tauto).
+  assert (Ob2 : ok s (next_he (next_he pe))) by (apply Hok; intro E; symmetry in E; tauto).
+  destruct (rif_core s edge pe pa1 pb2 pa2' pb1' s1 s2 s' Hw He0 Pe Hpe Nf Oa0 Oa1 Oa2 Ob1 Ob2
+              Hpa1 Hne Hpb2 U1 Hpa2' Hpb1' U2 L G)
+    as (pa2 & pb1 & Hpa2 & Hpb1 & HL & Hframe & Hval & Hc).
+  assert (Hm : mono s s').
+  { apply (mono_of_kill (fun j => in_faceb edge j || in_faceb pe j)); exact HL. }
+  split; [|split; assumption].
+  split; [|split].
+  - apply (WF_kill (fun j => in_faceb edge j || in_faceb pe j) s s' Hw L); auto.
+    intros j Hj; cbv beta. rewrite !in_faceb_next by assumption. reflexivity.
+  - intros e He; apply Hc, Hok, He.
+  - intros q Hq.
+    (* liveness of the faces *)
+    destruct (WF_val _ _ _ Hw Hpa1) as [?|P1]; [contradiction|].
+    assert (La1 : hlive s (next_he edge) = true) by (apply hlive_true; eauto).
+    assert (La2 : hlive s (next_he (next_he edge)) = true) by (rewrite WF_next; auto).
+    assert (Lb0 : hlive s pe = true).
+    { destruct (Oa0 _ Hpe Pe) as [_ Q]. apply hlive_true; eauto. }
+    assert (Lb1 : hlive s (next_he pe) = true) by (rewrite WF_next; auto).
+    assert (Lb2 : hlive s (next_he (next_he pe)) = true) by (rewrite WF_next; auto).
+    assert (NP : forall k pk, h_pair s k = Some pk -> hlive s k = true -> ok s k -> x <> pk).
+    { intros k pk Hk Lk Ok ->.
+      assert (0 <= pk) as P0.
+      { apply hlive_true in Lk; destruct Lk as [r [Hr Hr0]]; congruence. }
+      destruct (Ok _ Hk P0) as [_ Q]. rewrite (Hx _ Q) in Lk; discriminate. }
+    assert (Hq' : h_pair s' x = h_pair s x).
+    { apply Hframe; [|eapply NP; eauto..].
+      apply orb_false_iff; split; apply in_faceb_false; unfold in_face; tauto. }
+    rewrite Hq' in Hq. apply Hx in Hq.
+    destruct (hlive s' q) eqn:E; [apply Hm in E; congruence|reflexivity].
+Qed.
+
+Theorem remove_if_folded_pair_inv : forall s edge s',
+  pair_inv s = true -> rif_guard s (-1) edge = true ->
+  remove_if_folded s edge = Some s' ->
+  pair_inv s' = true /\ forall t, live_tri s t = false -> live_tri s' t = false.
+Proof.
+  intros s edge s' Hi Hg H. apply pair_inv_reflect, PairInv_Inv in Hi.
+  destruct (remove_if_folded_inv _ _ _ _ Hi Hg H) as [I [M _]].
+  split; [apply pair_inv_reflect, PairInv_Inv; exact I|apply mono_live_tri; exact M].
+Qed.
+
+(* ---- PairUp of two live halfedges ----------------------------------------------- *)
+Lemma pair_up_WF : forall s x y s',
+  WF s -> hlive s x = true -> hlive s y = true -> pair_up s x y = Some s' ->
+  WF s' /\ (forall j, hlive s' j = hlive s j) /\ slots s' = slots s.
+Proof.
+  intros s x y s' Hw Lx Ly H.
+  pose proof (pair_up_slots _ _ _ _ H) as L.
+  pose proof (pair_up_range _ _ _ _ H) as [Rx Ry].
+  assert (HL : forall j, hlive s' j = hlive s j).
+  { intros j; rewrite (pair_up_hlive _ _ _ _ H).
+    destruct (Z.eqb_spec j y) as [->|]; [symmetry; exact Ly|].
+    destruct (Z.eqb_spec j x) as [->|]; [symmetry; exact Lx|reflexivity]. }
+  split; [|split; assumption].
+  apply (WF_kill (fun _ => false) s s' Hw L); auto.
+  intros j Hj. rewrite (pair_up_pair _ _ _ _ H).
+  destruct (j =? y); [eexists; split; [reflexivity|lia]|].
+  destruct (j =? x); [eexists; split; [reflexivity|lia]|].
+  destruct Hw as [_ Hwf]; apply Hwf; exact Hj.
+Qed.
+
+Theorem pair_up_dead_stay_dead : forall s x y s',
+  hlive s x = true -> hlive s y = true -> pair_up s x y = Some s' ->
+  forall t, live_tri s t = false -> live_tri s' t = false.
+Proof.
+  intros s x y s' Lx Ly H. apply mono_live_tri. intros j.
+  rewrite (pair_up_hlive _ _ _ _ H).
+  destruct (Z.eqb_spec j y) as [->|]; [auto|].
+  destruct (Z.eqb_spec j x) as [->|]; auto.
+Qed.
+
+(* ---- FormLoop --------------------------------------------------------------------- *)
+Lemma form_loop_guard_spec : forall s x cur end_, form_loop_guard s x cur end_ = true ->
+  exists o n, h_pair s cur = Some o /\ h_pair s end_ = Some n /\ 0 <= o /\ 0 <= n /\
+    cur <> x /\ end_ <> x /\ o <> end_ /\
+    ~ in_face end_ x /\ ~ in_face o x /\ ~ in_face end_ o.
+Proof.
+  intros s x cur end_ H; unfold form_loop_guard in H.
+  destruct (h_pair s cur) as [o|]; [|discriminate].
+  destruct (h_pair s end_) as [n|]; [|discriminate].
+  exists o, n.
+  rewrite !andb_true_iff, !negb_true_iff, !in_faceb_false, !Z.leb_le, !Z.eqb_neq in H.
+  tauto.
+Qed.
+
+(* the two PairUp of FormLoop exchange the partners of cur and end_ *)
+Lemma form_loop_swap : forall x s e c o n sB sC,
+  Inv x s -> h_pair s e = Some o -> h_pair s c = Some n -> 0 <= o -> 0 <= n ->
+  e <> x -> c <> x -> o <> c ->
+  pair_up s e n = Some sB -> pair_up sB c o = Some sC ->
+  Inv x sC /\ (forall j, hlive sC j = hlive s j) /\ slots sC = slots s /\
+  h_pair sC c = Some o.
+Proof.
+  intros x s e c o n sB sC [Hw [Hok Hx]] He Hc Po Pn Ex Cx Noc U1 U2.
+  destruct (Hok _ Ex _ He Po) as [Se Qe]. destruct (Hok _ Cx _ Hc Pn) as [Sc Qc].
+  assert (Le : hlive s e = true) by (apply hlive_true; eauto).
+  assert (Lc : hlive s c = true) by (apply hlive_true; eauto).
+  pose proof (h_pair_range _ _ _ He) as [E0 _]. pose proof (h_pair_range _ _ _ Hc) as [C0 _].
+  assert (Lo : hlive s o = true) by (apply hlive_true; eauto).
+  assert (Ln : hlive s n = true) by (apply hlive_true; eauto).
+  destruct (pair_up_WF _ _ _ _ Hw Le Ln U1) as [WB [HLB LB]].
+  assert (LcB : hlive sB c = true) by (rewrite HLB; exact Lc).
+  assert (LoB : hlive sB o = true) by (rewrite HLB; exact Lo).
+  destruct (pair_up_WF _ _ _ _ WB LcB LoB U2) as [WC [HLC LC]].
+  assert (G : forall j, h_pair sC j =
+            if j =? o then Some c else if j =? c then Some o else
+            if j =? n then Some e else if j =? e then Some n else h_pair s j).
+  { intros j. rewrite (pair_up_pair _ _ _ _ U2), (pair_up_pair _ _ _ _ U1). reflexivity. }
+  assert (Xo : x <> o).
+  { intros ->. rewrite (Hx _ Qe) in Le; discriminate. }
+  assert (Xn : x <> n).
+  { intros ->. rewrite (Hx _ Qc) in Lc; discriminate. }
+  split; [|split; [intros j; rewrite HLC; apply HLB|split; [lia|]]].
+  - split; [exact WC|split].
+    + intros z Zx p Hp Hp0. specialize (Hok z Zx). unfold ok in Hok.
+      rewrite G in Hp. rewrite G.
+      clear - Hok Hp Hp0 He Hc Qe Qc Se Sc Noc E0 C0.
+      zeqb; subst; try congruence;
+        try (inversion Hp; subst; split; congruence);
+        try (destruct (Hok _ Hp Hp0); split; congruence).
+    + intros q Hq. rewrite G in Hq.
+      destruct (Z.eqb_spec x o); [contradiction|]. destruct (Z.eqb_spec x c); [congruence|].
+      destruct (Z.eqb_spec x n); [contradiction|]. destruct (Z.eqb_spec x e); [congruence|].
+      rewrite HLC, HLB. apply Hx; exact Hq.
+  - rewrite G. destruct (Z.eqb_spec c o); [congruence|]. rewrite Z.eqb_refl. reflexivity.
+Qed.
+
+Theorem form_loop_inv : forall x fuel s cur end_ s',
+  Inv x s -> form_loop_guard s x cur end_ = true ->
+  form_loop fuel s cur end_ = Some s' ->
+  Inv x s' /\ mono s s' /\ slots s' = slots s.
+Proof.
+  intros x fuel s cur end_ s' HI Hg H.
+  destruct (form_loop_guard_spec _ _ _ _ Hg)
+    as (o & n & Ho & Hn & Po & Pn & Ex & Cx & Noc & Nx1 & Nx2 & Nf).
+  unfold form_loop in H. steps H.
+  assert (z1 = o) by (rewrite push_vert_pair, push_vert_pair in E3; congruence).
+  assert (z2 = n) by (rewrite push_vert_pair, push_vert_pair in E4; congruence).
+  subst z1 z2.
+  apply update_vert_same in E5, E6.
+  assert (SA : same_pairs s s1).
+  { eapply same_pairs_trans; [|exact E6]. eapply same_pairs_trans; [|exact E5].
+    split; [reflexivity|intros j; reflexivity]. }
+  pose proof (same_pairs_Inv _ _ _ SA HI) as IA.
+  destruct SA as [LA PA].
+  assert (Ho' : h_pair s1 cur = Some o) by (rewrite PA; exact Ho).
+  assert (Hn' : h_pair s1 end_ = Some n) by (rewrite PA; exact Hn).
+  destruct (form_loop_swap x s1 cur end_ o n s2 s3 IA Ho' Hn' Po Pn Ex Cx Noc E7 E8)
+    as [IC [HLC [LC Hco]]].
+  assert (Hg' : rif_guard s3 x end_ = true).
+  { unfold rif_guard. rewrite Hco. destruct (Z.ltb_spec o 0); [reflexivity|].
+    rewrite !andb_true_iff, !negb_true_iff, !in_faceb_false. tauto. }
+  destruct (remove_if_folded_inv _ _ _ _ IC Hg' H) as [I' [M' L']].
+  split; [exact I'|split; [|lia]].
+  intros j Hj. apply M' in Hj. rewrite HLC in Hj.
+  unfold hlive in *. rewrite PA in Hj. exact Hj.
+Qed.
+
+Theorem form_loop_pair_inv : forall fuel s cur end_ s',
+  pair_inv s = true -> form_loop_guard s (-1) cur end_ = true ->
+  form_loop fuel s cur end_ = Some s' ->
+  pair_inv s' = true /\ forall t, live_tri s t = false -> live_tri s' t = false.
+Proof.
+  intros fuel s cur end_ s' Hi Hg H. apply pair_inv_reflect, PairInv_Inv in Hi.
+  destruct (form_loop_inv _ _ _ _ _ _ Hi Hg H) as [I [M _]].
+  split; [apply pair_inv_reflect, PairInv_Inv; exact I|apply mono_live_tri; exact M].
+Qed.
+
+(* ---- SwapEdge ---------------------------------------------------------------------- *)
+Lemma swap_props_same : forall s a0 a1 a2 b0 b1 b2 s',
+  swap_props s a0 a1 a2 b0 b1 b2 = Some s' -> same_pairs s s'.
+Proof.
+  intros s a0 a1 a2 b0 b1 b2 s' H; unfold swap_props in H; steps H;
+    try apply same_pairs_refl;
+    repeat match goal with
+    | E : set_prop _ _ _ = Some _ |- _ => apply set_prop_same in E
+    end;
+    repeat match goal with
+    | E : same_pairs (push_prop ?a) ?b |- _ =>
+        assert (same_pairs a b) by (destruct E as [L P]; split; [exact L|exact P]); clear E
+    end;
+    eauto using same_pairs_trans.
+Qed.
+
+(* the three PairUp of SwapEdge *)
+Lemma swap_edge_pairs : forall s a0 b0 pb2 pa2' s3 s4 s5,
+  PairInv s -> 0 <= a0 -> h_pair s a0 = Some b0 -> 0 <= b0 -> ~ in_face a0 b0 ->
+  h_pair s (next_he (next_he b0)) = Some pb2 ->
+  pair_up s a0 pb2 = Some s3 ->
+  h_pair s3 (next_he (next_he a0)) = Some pa2' ->
+  pair_up s3 b0 pa2' = Some s4 ->
+  pair_up s4 (next_he (next_he a0)) (next_he (next_he b0)) = Some s5 ->
+  PairInv s5 /\ (forall j, hlive s5 j = hlive s j) /\ slots s5 = slots s.
+Proof.
+  intros s a0 b0 pb2 pa2' s3 s4 s5 [Hw Hok] Ha0 Hab Hb0 Hnf Hpb2 U1 Hpa2' U2 U3.
+  destruct (Hok _ _ Hab Hb0) as [Sab Hba].
+  assert (La0 : hlive s a0 = true) by (apply hlive_true; eauto).
+  assert (Lb0 : hlive s b0 = true) by (apply hlive_true; eauto).
+  assert (Ha1 := next_he_nonneg _ Ha0). assert (Ha2 := next_he_nonneg _ Ha1).
+  assert (Hb1 := next_he_nonneg _ Hb0). assert (Hb2 := next_he_nonneg _ Hb1).
+  assert (La2 : hlive s (next_he (next_he a0)) = true) by (rewrite !WF_next; auto).
+  assert (Lb2 : hlive s (next_he (next_he b0)) = true) by (rewrite !WF_next; auto).
+  apply hlive_true in La2; destruct La2 as [pa2 [Hpa2 P2]].
+  assert (P4 : 0 <= pb2).
+  { apply hlive_true in Lb2; destruct Lb2 as [q [Hq Hq0]]; congruence. }
+  destruct (Hok _ _ Hpa2 P2) as [Sa2 Qa2]. destruct (Hok _ _ Hpb2 P4) as [Sb2 Qb2].
+  pose proof (next_he_ne a0 Ha0) as [_ Da2]. pose proof (next_he_ne b0 Hb0) as [_ Db2].
+  pose proof (in_face_next_not _ _ Ha0 Hb0 Hnf) as Hnf1.
+  pose proof (in_face_next_not _ _ Ha0 Hb1 Hnf1) as Hnf2.
+  unfold in_face in Hnf, Hnf2.
+  assert (C00 : b0 <> a0) by tauto. assert (C02 : b0 <> next_he (next_he a0)) by tauto.
+  assert (C20 : next_he (next_he b0) <> a0) by tauto.
+  assert (C22 : next_he (next_he b0) <> next_he (next_he a0)) by tauto.
+  clear Hnf Hnf1 Hnf2.
+  pose proof (pair_up_pair _ _ _ _ U1) as G1.
+  pose proof Hpa2' as Rpa2'. rewrite G1 in Hpa2'.
+  assert (La2 : hlive s (next_he (next_he a0)) = true) by (apply hlive_true; eauto).
+  generalize dependent (next_he (next_he a0)); intros a2; intros.
+  generalize dependent (next_he (next_he b0)); intros b2; intros.
+  assert (Lpb2 : hlive s pb2 = true) by (apply hlive_true; eauto).
+  assert (Lpa2 : hlive s pa2 = true) by (apply hlive_true; eauto).
+  assert (X2 : pa2' = pa2 \/ pa2' = a0).
+  { clear - Hpa2' Hpa2 Da2. zeqb; [right|congruence|left]; congruence. }
+  assert (Lpa2' : hlive s pa2' = true) by (destruct X2 as [->| ->]; assumption).
+  destruct (pair_up_WF _ _ _ _ Hw La0 Lpb2 U1) as [W3 [HL3 L3]].
+  assert (Lb0' : hlive s3 b0 = true) by (rewrite HL3; exact Lb0).
+  assert (Lpa2'' : hlive s3 pa2' = true) by (rewrite HL3; exact Lpa2').
+  destruct (pair_up_WF _ _ _ _ W3 Lb0' Lpa2'' U2) as [W4 [HL4 L4]].
+  assert (La2' : hlive s4 a2 = true) by (rewrite HL4, HL3; exact La2).
+  assert (Lb2' : hlive s4 b2 = true) by (rewrite HL4, HL3; exact Lb2).
+  destruct (pair_up_WF _ _ _ _ W4 La2' Lb2' U3) as [W5 [HL5 L5]].
+  split; [|split; [intros j; rewrite HL5, HL4; apply HL3|lia]].
+  split; [exact W5|].
+  intros z p Hp Hp0. specialize (Hok z). unfold ok in Hok.
+  assert (G : forall j, h_pair s5 j =
+            if j =? b2 then Some a2 else if j =? a2 then Some b2 else
+            if j =? pa2' then Some b0 else if j =? b0 then Some pa2' else
+            if j =? pb2 then Some a0 else if j =? a0 then Some pb2 else h_pair s j).
+  { intros j. rewrite (pair_up_pair _ _ _ _ U3), (pair_up_pair _ _ _ _ U2), G1. reflexivity. }
+  rewrite G in Hp. rewrite G.
+  clear - Hok Hp Hp0 Hab Hba Hpa2 Qa2 Hpb2 Qb2 Sab Sa2 Sb2 Da2 Db2 C00 C02 C20 C22 Hpa2'.
+  zeqb; subst; try congruence;
+    try (inversion Hp; subst; split; congruence);
+    try (destruct (Hok _ Hp Hp0); split; congruence).
+Qed.
+
+Lemma swap_scan_inv : forall fuel lf s cur stop ev a2 s',
+  PairInv s ->
+  swap_scan_guard fuel lf s cur stop ev a2 = Some true ->
+  swap_scan fuel lf s cur stop ev a2 = Some s' ->
+  PairInv s' /\ mono s s'.
+Proof.
+  induction fuel as [|f IH]; intros lf s cur stop ev a2 s' HI Hg H;
+    cbn [swap_scan] in H; cbn [swap_scan_guard] in Hg.
+  - destruct (cur =? stop); [|discriminate]. inversion H; subst. split; [exact HI|apply mono_refl].
+  - destruct (cur =? stop); [inversion H; subst; split; [exact HI|apply mono_refl]|].
+    destruct (h_end s (next_he cur)) as [ve|]; cbn [bind] in H, Hg; [|discriminate].
+    destruct (ve =? ev).
+    + destruct (form_loop_guard s (-1) a2 (next_he cur)) eqn:FG; [|discriminate].
+      destruct (form_loop lf s a2 (next_he cur)) as [s1|] eqn:FL; cbn [bind] in H, Hg; [|discriminate].
+      inversion Hg as [RG].
+      apply PairInv_Inv in HI.
+      destruct (form_loop_inv _ _ _ _ _ _ HI FG FL) as [I1 [M1 _]].
+      destruct (remove_if_folded_inv _ _ _ _ I1 RG H) as [I2 [M2 _]].
+      split; [apply PairInv_Inv; exact I2|eapply mono_trans; eauto].
+    + destruct (h_pair s (next_he cur)) as [p|]; cbn [bind] in H, Hg; [|discriminate].
+      eapply IH; eauto.
+Qed.
+
+Theorem swap_edge_inv : forall fuel s edge s',
+  pair_inv s = true ->
+  swap_edge_guard fuel s edge = Some true ->
+  swap_edge fuel s edge = Some s' ->
+  pair_inv s' = true /\ forall t, live_tri s t = false -> live_tri s' t = false.
+Proof.
+  intros fuel s edge s' Hi Hg H. apply pair_inv_reflect in Hi.
+  unfold swap_edge in H. unfold swap_edge_guard in Hg.
+  destruct (h_pair s edge) as [pair|] eqn:Hpe; cbn [bind] in H, Hg; [|discriminate].
+  destruct ((pair <? 0) || in_faceb edge pair) eqn:T; [discriminate|].
+  apply orb_false_iff in T; destruct T as [T1 T2].
+  apply Z.ltb_ge in T1. apply in_faceb_false in T2.
+  unfold tri_of in H, Hg.
+  steps H.
+  cbv beta iota delta [bind] in Hg.
+  repeat match goal with
+  | E : ?t = Some _ |- _ =>
+      tryif constr_eq E Hg then fail else
+      match type of Hg with context [t] => rewrite E in Hg; cbv beta iota delta [bind] in Hg end
+  end.
+  pose proof (h_pair_range _ _ _ Hpe) as [Ege0 _].
+  apply set_start_same in E0, E2.
+  assert (S2 : same_pairs s s1) by eauto using same_pairs_trans.
+  assert (I2 : PairInv s1).
+  { apply PairInv_Inv. eapply same_pairs_Inv; [exact S2|]. apply PairInv_Inv; exact Hi. }
+  destruct S2 as [L2 P2].
+  assert (Hpe' : h_pair s1 edge = Some pair) by (rewrite P2; exact Hpe).
+  destruct (swap_edge_pairs s1 edge pair _ _ _ _ _ I2 Ege0 Hpe' T1 T2 E3 E4 E5 E6 E7)
+    as [I5 [HL5 L5]].
+  apply swap_props_same in E8.
+  assert (I6 : PairInv s5).
+  { apply PairInv_Inv. eapply same_pairs_Inv; [exact E8|]. apply PairInv_Inv; exact I5. }
+  destruct (swap_scan_inv _ _ _ _ _ _ _ _ I6 Hg H) as [I' M'].
+  split; [apply pair_inv_reflect; exact I'|].
+  apply mono_live_tri. intros j Hj. apply M' in Hj.
+  rewrite (same_pairs_hlive _ _ _ E8), HL5 in Hj.
+  unfold hlive in *. rewrite P2 in Hj. exact Hj.
+Qed.
+
+Theorem update_vert_pair_inv : forall fuel s vert current endEdge s',
+  pair_inv s = true -> update_vert fuel s vert current endEdge = Some s' ->
+  pair_inv s' = true /\ forall t, live_tri s t = false -> live_tri s' t = false.
+Proof.
+  intros fuel s vert current endEdge s' Hi H. apply update_vert_same in H.
+  apply pair_inv_reflect, PairInv_Inv in Hi.
+  split; [apply pair_inv_reflect, PairInv_Inv; eapply same_pairs_Inv; eauto|].
+  apply mono_live_tri, same_pairs_mono; exact H.
+Qed.
+
+(* ---- CollapseEdge2 ------------------------------------------------------------------ *)
+Lemma orbit_start_inv : forall fuel lf s x cur stop start edges sp0 ep0 sp1 ep1 s' st',
+  Inv x s ->
+  orbit_start_guard fuel lf s x cur stop start edges sp0 ep0 sp1 ep1 = Some true ->
+  orbit_start fuel lf s cur stop start edges sp0 ep0 sp1 ep1 = Some (s', st') ->
+  Inv x s' /\ mono s s'.
+Proof.
+  induction fuel as [|f IH]; intros lf s x cur stop start edges sp0 ep0 sp1 ep1 s' st' HI Hg H;
+    cbn [orbit_start] in H; cbn [orbit_start_guard] in Hg.
+  - destruct (cur =? stop); [|discriminate]. inversion H; subst. split; [exact HI|apply mono_refl].
+  - destruct (cur =? stop); [inversion H; subst; split; [exact HI|apply mono_refl]|].
+    match type of H with bind ?e _ = _ => destruct e as [s1|] eqn:E1 end;
+      cbn [bind] in H, Hg; [|discriminate].
+    assert (S1 : same_pairs s s1).
+    { destruct (0 <? numprop s); [|inversion E1; apply same_pairs_refl].
+      destruct (h_prop s (next_he cur)) as [pc|]; cbn [bind] in E1; [|discriminate].
+      destruct (pc =? sp0); [eapply set_prop_same; eauto|].
+      destruct (pc =? sp1); [eapply set_prop_same; eauto|].
+      inversion E1; apply same_pairs_refl. }
+    pose proof (same_pairs_Inv _ _ _ S1 HI) as I1.
+    pose proof (same_pairs_mono _ _ S1) as M1.
+    destruct (h_end s1 (next_he cur)) as [vert|]; cbn [bind] in H, Hg; [|discriminate].
+    destruct (h_pair s1 (next_he cur)) as [next|]; cbn [bind] in H, Hg; [|discriminate].
+    destruct (find_edge s1 vert edges 0) as [hit|]; cbn [bind] in H, Hg; [|discriminate].
+    destruct hit as [[i e]|].
+    + destruct (form_loop_guard s1 x e (next_he cur)) eqn:FG; [|discriminate].
+      destruct (form_loop lf s1 e (next_he cur)) as [s2|] eqn:FL; cbn [bind] in H, Hg; [|discriminate].
+      destruct (form_loop_inv _ _ _ _ _ _ I1 FG FL) as [I2 [M2 _]].
+      destruct (IH _ _ _ _ _ _ _ _ _ _ _ _ _ I2 Hg H) as [I3 M3].
+      split; [exact I3|eauto using mono_trans].
+    + destruct (IH _ _ _ _ _ _ _ _ _ _ _ _ _ I1 Hg H) as [I3 M3].
+      split; [exact I3|eauto using mono_trans].
+Qed.
+
+Theorem collapse_edge2_inv : forall fuel s edge reject s' did,
+  pair_inv s = true ->
+  collapse_edge2_guard fuel s edge reject = Some true ->
+  collapse_edge2 fuel s edge reject = Some (s', did) ->
+  pair_inv s' = true /\ forall t, live_tri s t = false -> live_tri s' t = false.
+Proof.
+  intros fuel s edge reject s' did Hi Hg H. pose proof Hi as Hi0. apply pair_inv_reflect in Hi.
+  unfold collapse_edge2 in H. unfold collapse_edge2_guard in Hg.
+  destruct (h_pair s edge) as [pair|] eqn:Hpe; cbn [bind] in H, Hg; [|discriminate].
+  destruct (Z.ltb_spec pair 0) as [Hneg|Hpos].
+  { inversion H; subst. split; auto. }
+  unfold tri_of in H, Hg.
+  destruct (h_start s edge) as [sv|]; cbn [bind] in H; [|discriminate].
+  destruct (h_start s (next_he edge)) as [ev|] eqn:Hev; cbn [bind] in H; [|discriminate].
+  destruct reject.
+  { inversion H; subst. split; auto. }
+  steps H.
+  cbv beta iota delta [bind] in Hg.
+  repeat match goal with
+  | E : ?t = Some _ |- _ =>
+      tryif constr_eq E Hg then fail else
+      match type of Hg with context [t] => rewrite E in Hg; cbv beta iota delta [bind] in Hg end
+  end.
+  destruct (in_faceb pair edge) eqn:T; [discriminate|]. apply in_faceb_false in T.
+  destruct (orbit_start_guard fuel fuel s0 edge z4 (next_he (next_he edge)) z4 l z0 z1 z2 z3)
+    as [g|] eqn:OG; [|discriminate].
+  destruct g; cbn [negb] in Hg; [|discriminate]. assert (RG : rif_guard s3 (-1) z5 = true) by congruence. clear Hg.
+  pose proof Hi as [Hw Hok]. destruct (Hok _ _ Hpe Hpos) as [_ Qpe].
+  pose proof (h_pair_range _ _ _ Hpe) as [Ege0 _].
+  destruct (collapse_tri_inv_first s pair edge s0 Hi Hpos Qpe T E9) as [I0 [M0 _]].
+  destruct (orbit_start_inv _ _ _ _ _ _ _ _ _ _ _ _ _ _ I0 OG E10) as [I1 M1].
+  apply update_vert_same in E11.
+  pose proof (same_pairs_Inv _ _ _ E11 I1) as I2.
+  pose proof (same_pairs_mono _ _ E11) as M2.
+  destruct (collapse_tri_inv_second s2 edge s3 I2 Ege0 E12) as [I3 [M3 _]].
+  apply PairInv_Inv in I3.
+  destruct (remove_if_folded_inv _ _ _ _ I3 RG E13) as [I4 [M4 _]].
+  split; [apply pair_inv_reflect, PairInv_Inv; exact I4|].
+  apply mono_live_tri. eauto using mono_trans.
+Qed.
+
+(* ---- sequences of operations --------------------------------------------------------- *)
+Lemma run_op_inv : forall fuel o s s',
+  pair_inv s = true -> run_op_guard fuel o s = Some true -> run_op fuel o s = Some s' ->
+  pair_inv s' = true /\ forall t, live_tri s t = false -> live_tri s' t = false.
+Proof.
+  intros fuel [e rej|e] s s' Hi Hg H; cbn [run_op] in H; cbn [run_op_guard] in Hg.
+  - destruct (collapse_edge2 fuel s e rej) as [[s1 d]|] eqn:E; cbn in H; [|discriminate].
+    inversion H; subst s1. eapply collapse_edge2_inv; eauto.
+  - eapply swap_edge_inv; eauto.
+Qed.
+
+Theorem run_ops_inv_partial : forall fuel ops s s',
+  pair_inv s = true -> run_ops_guard fuel ops s = Some true -> run_ops fuel ops s = Some s' ->
+  pair_inv s' = true /\ forall t, live_tri s t = false -> live_tri s' t = false.
+Proof.
+  intros fuel ops; induction ops as [|o r IH]; intros s s' Hi Hg H;
+    cbn [run_ops] in H; cbn [run_ops_guard] in Hg.
+  - inversion H; subst; auto.
+  - destruct (run_op_guard fuel o s) as [g|] eqn:G; cbn [bind] in Hg; [|discriminate].
+    destruct g; [|discriminate].
+    destruct (run_op fuel o s) as [s1|] eqn:E; cbn [bind] in H, Hg; [|discriminate].
+    destruct (run_op_inv _ _ _ _ Hi G E) as [I1 D1].
+    destruct (IH _ _ I1 Hg H) as [I2 D2]. split; auto.
+Qed.
+
+Theorem run_ops_dead_stay_dead_partial : forall fuel ops s s',
+  pair_inv s = true -> run_ops_guard fuel ops s = Some true -> run_ops fuel ops s = Some s' ->
+  forall t, live_tri s t = false -> live_tri s' t = false.
+Proof. intros fuel ops s s' Hi Hg H; eapply run_ops_inv_partial; eauto. Qed.
+
+Lemma filter_mono_length : forall (A : Type) (f g : A -> bool) (l : list A),
+  (forall a, g a = true -> f a = true) ->
+  (length (filter g l) <= length (filter f l))%nat.
+Proof.
+  intros A f g l H; induction l as [|a l IH]; cbn; [lia|].
+  destruct (g a) eqn:G; [rewrite (H a G); cbn; lia|destruct (f a); cbn; lia].
+Qed.
+
+Theorem run_ops_num_live_monotone_partial : forall fuel ops s s',
+  pair_inv s = true -> run_ops_guard fuel ops s = Some true -> run_ops fuel ops s = Some s' ->
+  num_live s' <= num_live s.
+Proof.
+  intros fuel ops s s' Hi Hg H.
+  pose proof (run_ops_dead_stay_dead_partial _ _ _ _ Hi Hg H) as D.
+  pose proof (run_ops_slots _ _ _ _ H) as L. unfold slots in L.
+  unfold num_live. apply Nat2Z.inj in L. rewrite L.
+  apply Nat2Z.inj_le, filter_mono_length.
+  intros t Ht. destruct (live_tri s (Z.of_nat t)) eqn:E; [reflexivity|].
+  rewrite (D _ E) in Ht; discriminate.
+Qed.
+
+(* ---- examples: the invariant and the guards hold on the concrete meshes ------------- *)
+Example pair_inv_tetra : pair_inv tetra = true.
+Proof. vm_compute; reflexivity. Qed.
+Example pair_inv_octa : pair_inv octa = true.
+Proof. vm_compute; reflexivity. Qed.
+
+(* after each example sequence of SimplifyModel.v: guards true, invariant true *)
+Definition inv_after (fuel : nat) (ops : list op) (s : state) : option (bool * bool) :=
+  g <- run_ops_guard fuel ops s ;; s' <- run_ops fuel ops s ;; Some (g, pair_inv s').
+
+Example tetra_collapse_inv : inv_after 20 [OpCollapse 0 false] tetra = Some (true, true).
+Proof. vm_compute; reflexivity. Qed.
+Example tetra_collapse_rejected_inv : inv_after 20 [OpCollapse 0 true] tetra = Some (true, true).
+Proof. vm_compute; reflexivity. Qed.
+Example octa_collapse_inv : inv_after 30 [OpCollapse 13 false] octa = Some (true, true).
+Proof. vm_compute; reflexivity. Qed.
+Example octa_swap_inv : inv_after 30 [OpSwap 0] octa = Some (true, true).
+Proof. vm_compute; reflexivity. Qed.
+Example octa_swap_collapse_inv :
+  inv_after 30 [OpSwap 0; OpCollapse 13 false] octa = Some (true, true).
+Proof. vm_compute; reflexivity. Qed.
+Example tetra_swap_inv : inv_after 20 [OpSwap 0] tetra = Some (true, true).
+Proof. vm_compute; reflexivity. Qed.
+
+(* every single collapse / swap request on every halfedge of the two meshes *)
+Example all_single_ops_guarded :
+  forallb (fun e => match inv_after 40 [OpCollapse (Z.of_nat e) false] tetra with
+                    | Some (true, true) => true | _ => false end) (seq 0 12) = true /\
+  forallb (fun e => match inv_after 40 [OpSwap (Z.of_nat e)] tetra with
+                    | Some (true, true) => true | _ => false end) (seq 0 12) = true /\
+  forallb (fun e => match inv_after 40 [OpCollapse (Z.of_nat e) false] octa with
+                    | Some (true, true) => true | _ => false end) (seq 0 24) = true /\
+  forallb (fun e => match inv_after 40 [OpSwap (Z.of_nat e)] octa with
+                    | Some (true, true) => true | _ => false end) (seq 0 24) = true.
+Proof. vm_compute; repeat split; reflexivity. Qed.
+
+(* CollapseTri ALONE does not preserve pair_inv: the partner 5 of halfedge 0
+   stays live and points to the removed halfedge 0 (this is the tolerated
+   exception x of Inv, repaired by the second CollapseTri of CollapseEdge2) *)
+Example collapse_tri_alone_breaks_pair_inv :
+  exists s1, collapse_tri tetra (tri_of 0) = Some s1 /\ pair_inv s1 = false /\
+             hlive s1 5 = true /\ h_pair s1 5 = Some 0 /\ hlive s1 0 = false.
+Proof. eexists; vm_compute; repeat split; reflexivity. Qed.
+
+(* ... and from such a state (NOT satisfying pair_inv) a further CollapseTri
+   passes the removed halfedge 0 to PairUp and face 0 is live again: the
+   invariant hypothesis of collapse_tri_dead_stay_dead cannot be dropped *)
+Example resurrection_without_pair_inv :
+  exists s1 s2, collapse_tri tetra (tri_of 0) = Some s1 /\
+                collapse_tri s1 (tri_of 4) = Some s2 /\
+                live_tri s1 0 = false /\ live_tri s2 0 = true.
+Proof. do 2 eexists; vm_compute; repeat split; reflexivity. Qed.
